@@ -6,7 +6,7 @@ from .. import core, gen
 from . import c18_big
 
 ID = 'C18'
-FOUNDATIONS = ['harness.foundation.cscalar']   # ties of the C++ helper functions the model rests on (generated from their text)
+FOUNDATIONS = ['harness.foundation.cscalar', 'harness.foundation.pybody']   # ties of the C++ helper functions the model rests on (generated from their text)
 LEVEL = 'proof'
 RULE = ('corpus; structured random float64 arrays of 1-3 dimensions (axis lengths 1..24, integer-valued, ramps and '
         'random values) x orders 1-4 x six border modes x prefilter on/off x seven memory layouts; shifts per axis from '
